@@ -1,10 +1,15 @@
 package main
 
 import (
+	"fmt"
+	"runtime"
+	"sort"
+	"strings"
 	"time"
 
 	"verif/harness/evid"
 	"verif/harness/tok"
+	"verif/harness/wproto"
 )
 
 func init() { register("C15", "model_checking", checkC15) }
@@ -17,6 +22,10 @@ func checkC15(r *evid.Run) {
 		cfg, nconc, timeout = "MC_C15_thorough.cfg", 2, 30*time.Minute
 	}
 	concs := tok.Concs(r.Seed, nconc, allChunkIDs)
+	pool := workerPool(r, runtime.NumCPU())
+	if pool != nil {
+		defer pool.Close()
+	}
 	runDocModel(r, modelRun{Module: "MC_C15", Cfg: cfg, Timeout: timeout}, func(d *DocState) {
 		if len(d.Forest) == 0 {
 			return
@@ -30,8 +39,61 @@ func checkC15(r *evid.Run) {
 		// every spelling must give exactly the declarative result of the items it spells, in every
 		// output mode: two spellings of the same items are thereby compared with each other as well
 		checkRejectOrRender(r, d, concs, mdRoutes)
+		// ... and (every 8th state) the directories made from this spelling are those of the forest, and the
+		// directory made from the CANONICAL spelling verifies strictly against this spelling
+		if d.N%8 == 0 && pool != nil {
+			checkSpellingFs(r, pool, d, concs[0])
+		}
 	})
 	r.Set("exhaustive", true)
 	r.Set("rule", "every item sequence up to the bound spelled under each member of the notation family (unit: tab, 1-4 spaces, 2 tabs; bullet per line; heading roots; CRLF; blank/white-space-only lines at any position; final newline by concretisation), replayed through text (both generators), JSON, YAML and walk; the full product of the dimensions is sampled by the random trace driver; non-trivial = at least 2 nodes")
 	traceDocs(r, "C15", traceSpecC15)
+}
+
+func checkSpellingFs(r *evid.Run, pool *wproto.Pool, d *DocState, c *tok.Conc) {
+	// distinct root names only (equally named roots are not settled for the filesystem operations)
+	seen := map[string]bool{}
+	for _, t := range d.Forest {
+		k := strings.Join(t.Name, " ")
+		if seen[k] {
+			return
+		}
+		seen[k] = true
+	}
+	doc := c.Doc(d.Doc)
+	ext := c.Seq([]string{"a"})
+	var want []string
+	var canon strings.Builder
+	var rec func(t *Tree, prefix string, depth int)
+	rec = func(t *Tree, prefix string, depth int) {
+		name := c.Seq(t.Name)
+		p := prefix + "/" + name
+		kind := "d:"
+		if len(t.Kids) == 0 && strings.HasSuffix(name, ext) {
+			kind = "f:"
+		}
+		want = append(want, kind+p)
+		canon.WriteString(strings.Repeat("  ", depth) + "- " + name + "\n")
+		for _, k := range t.Kids {
+			rec(k, p, depth+1)
+		}
+	}
+	want = append(want, "d:t")
+	for _, t := range d.Forest {
+		rec(t, "t", 0)
+	}
+	sort.Strings(want)
+	mk := pool.Call(wproto.Req{Op: "mkdir", Doc: doc, Exts: []string{ext}}, 30*time.Second)
+	r.Count("real_calls", 1)
+	if mk.Class != "ok" || !sameStrs(mk.Entries, want) {
+		r.Mismatch("md-mkdir:spelling-changes-directories", fmt.Sprintf("doc=%q: class=%s err=%q entries=%v want=%v", doc, mk.Class, mk.Err, mk.Entries, want),
+			docReplay{Doc: d.Doc, Conc: c, Bytes: doc, Route: "md-mkdir"})
+	}
+	vf := pool.Call(wproto.Req{Op: "verify", Doc: doc, Strict: true, PreDoc: canon.String()}, 30*time.Second)
+	r.Count("real_calls", 1)
+	// (the pre-made directory has no files: nodes that the extension would turn into files are directories there, which verify does not distinguish)
+	if vf.Class != "ok" {
+		r.Mismatch("md-verify:spelling-changes-verdict", fmt.Sprintf("doc=%q verified strictly against the directory made from its canonical spelling %q: %s", doc, canon.String(), vf.Err),
+			docReplay{Doc: d.Doc, Conc: c, Bytes: doc, Route: "md-verify"})
+	}
 }
